@@ -53,7 +53,7 @@ struct Params {
 // ---------------------------------------------------------------- statistics: what actually fired
 struct Stats {
 	uint64_t steps=0, switches=0, clock_jumps=0;
-	uint64_t short_reads=0, short_writes=0, eagain_r=0, eagain_w=0, eintr=0, spurious=0, resets=0, epipe=0;
+	uint64_t short_reads=0, short_writes=0, eagain_r=0, eagain_w=0, eintr=0, spurious=0, resets=0, epipe=0, partitions=0, partition_refused=0;
 	uint64_t file_short=0, file_eintr=0, cv_spurious=0, stdio_ops=0, stdio_fail=0;
 	uint64_t threads_created=0, mutex_contended=0, rw_contended=0, cv_waits=0;
 	uint64_t accepts=0, connects=0, bytes_rx=0, bytes_tx=0;
@@ -146,6 +146,7 @@ struct Conn {
 std::shared_ptr<Conn> client_connect(const std::string &addr,size_t cap_to_server,size_t cap_to_client);
 bool is_listening(const std::string &addr);
 int open_sim_fds();                     // number of simulated descriptors currently open
+void set_link_cut(int node,const std::string &addr,bool cut);   // fault: partition between one node's threads and one listening address
 bool reset_accepted_stream(uint64_t pick); // fault: one established (accepted) connection is reset, both ends see ECONNRESET
 int open_accepted_fds();                // ... of which were returned by accept() (server side connections)
 std::string describe_fds();
